@@ -647,12 +647,28 @@ def c18_case(r, i):
 def c19_body(r, i):
     tg = TypeGen(r)
     n = 1 + r.below(3)
+    if r.chance(0.08):
+        n = 0            # the EMPTY event set is a finite event set too: `emits: []` (a type that resolves to no names is not "no annotation")
     evs = []
     pool = list(EVENTS)
     for _ in range(n):
         evs.append(pool.pop(r.below(len(pool))))
 
     def enc(names, d=0):
+        if not names:
+            tg.used["emits:empty-set"] += 1
+            k0 = r.below(6) if d < 2 else 0
+            if k0 == 0:
+                return "{}"
+            if k0 == 1:
+                nme = tg.fresh("EI"); tg.place("interface %s { }" % nme); return nme
+            if k0 == 2:
+                nme = tg.fresh("EA"); tg.place("%stype %s = %s;" % (r.pick(["", "export "]), nme, enc([], d + 1))); return nme
+            if k0 == 3:
+                nme, b = tg.fresh("EE"), tg.fresh("EB"); tg.place("interface %s { }" % b); tg.place("interface %s extends %s { }" % (nme, b)); return nme
+            if k0 == 4:
+                return "%s & %s" % (enc([], d + 1), enc([], d + 1))
+            return "(%s)" % enc([], d + 1)
         k = r.wpick([("fn", 3), ("fn-union-lit", 2), ("union-of-fn", 2), ("callsig-lit", 3), ("iface", 3), ("iface-extends", 2), ("iface-merge-extends", 2), ("props", 2), ("alias", 2),
                      ("lit-alias", 2), ("intersection", 1), ("exported", 1)] if d < 3 else [("callsig-lit", 1)])
         tg.used["emits:" + k] += 1
